@@ -44,7 +44,7 @@ def native_case(draw, model=None):
         s["amp"] = draw(st.sampled_from([1e-3, 1.0, 30.0]))
     winds = [dict(wspd=draw(st.floats(0.5, 40)), wdir=draw(st.floats(0, 359.9)), dpt=draw(st.floats(1, 4000))) for _ in range(min(nt * ns, 4))]
     return dict(model=model, fg=fg, dg=dg, nt=nt, ns=ns, specs=specs, winds=winds, latlon_time=draw(st.booleans()), with_wind=draw(st.booleans()), with_depth=draw(st.booleans()),
-                era5_sparse=draw(st.booleans()), turns=draw(st.sampled_from(["none", "none", "neg", "plus", "from270"])))
+                era5_sparse=draw(st.booleans()), era5_args=draw(st.sampled_from(["both", "both", "none", "freqs-only", "dirs-only"])), turns=draw(st.sampled_from(["none", "none", "neg", "plus", "from270"])))
 
 
 def _native_variance(case, T, nds):
@@ -76,8 +76,15 @@ def _native_variance(case, T, nds):
 def check_native(case, ctx):
     from wavespectra.input.dataset import read_dataset
 
-    T = native.truth(case["fg"], case["dg"], case["specs"], case["nt"], case["ns"], case["winds"], gen)
     m = case["model"]
+    fg, dg = case["fg"], case["dg"]
+    ea = case.get("era5_args", "both") if m == "era5" else "both"
+    if ea in ("none", "dirs-only"):
+        # the documented ERA5 grid: 30 frequencies from 0.03453 Hz in steps of 10 %, 24 directions (going to) 7.5, 22.5, ...
+        fg = dict(fg, f=[0.03453 * 1.1**k for k in range(30)])
+    if ea in ("none", "freqs-only"):
+        dg = dict(dg, n=24, d=[(7.5 + 15.0 * k + 180.0) % 360.0 for k in range(24)])
+    T = native.truth(fg, dg, case["specs"], case["nt"], case["ns"], case["winds"], gen)
     # the same physical directions written with other whole-turn representatives (radian models): (-180,180], one turn up,
     # or a circle that starts at 270 and runs past 360
     # only for the SWAN layout, whose converter itself wraps (`% 360`), i.e. is written to accept them; WWM writes [0, 2 pi)
@@ -96,6 +103,11 @@ def check_native(case, ctx):
     else:
         nds = native.era5(T, nlat=2)
         kw = dict(freqs=list(T["f"]), dirs=list(T["d"]))
+        if ea in ("none", "dirs-only"):
+            kw.pop("freqs")
+        if ea in ("none", "freqs-only"):
+            kw.pop("dirs")
+        ctx.label("era5-args=" + ea)
     with ctx.lib("read_dataset(%s layout)" % m):
         out = read_dataset(nds, **kw)
         out = out.compute()
